@@ -45,9 +45,14 @@ def run(ctx):
   ctx.borrow(c08.rule_accum, "R-C17-BYVALUE")      # jointly judged signatures: what one issuer contributes survives the next issuer
   ctx.borrow(c10.rule_dup, "R-C17-BYVALUE")
   ctx.borrow(c02.rule_release, "R-C17-BYVALUE", lambda r: r.where.endswith("BatchDLOfDifferences"))
+  # the entry recorded for an artifact (or issuer key) is created and decided in that artifact's own pass of the loop (shared with C16), and the cached
+  # baby-step table really holds the entries its size descriptor claims (shared with C10)
+  c16.rule_isolated(ctx, T.bodies(ctx.repo), "R-C17-OWN")
+  ctx.expect("R-C17-OWN", 24, "24 Check bodies")
+  ctx.borrow(c10.rule_table, "R-C17-CACHE")
   ctx.expect("R-C17-STATELESS", 8, "seven frozen writes + scan")
   ctx.expect("R-C17-INDIVIDUAL", 17, "17 individual checks")
-  ctx.expect("R-C17-CACHE", 3, "two table caches + multiples memo")
+  ctx.expect("R-C17-CACHE", 3 + 5, "two table caches + multiples memo + table coverage (shared with C10)")
   ctx.expect("R-C17-BYVALUE", 9, "BatchGCD + partitions + pairwise difference search (2 + 3 shared rows)")
 
 
